@@ -224,6 +224,9 @@ fn resp_step(q: &mut RespM, x: &Expanded, rep: &mut Replica, call: &Value, exp: 
                 Ok(Ok(Ok(()))) => "ok".into(),
                 Ok(Ok(Err(e))) => err_name(&e),
             };
+            if q.adopted.is_some() && q.adopted != Some(sid) && res != "SessionMismatch" {
+                return Err(Fail("C18:foreign-session-accepted".into(), format!("the responder processed a request of a session it did not adopt (result {res})"), json!({"call": call})));
+            }
             if q.adopted.is_none() {
                 q.adopted = Some(sid);
             }
